@@ -97,6 +97,10 @@ def check_derived_after_corr(rng, prog):
 
 def search(rng, tier, broken):
     n = 300 if tier == 'quick' else 5000
+    import fit_a
+    h = fit_a.history_oracle(rng, 100 if tier == 'quick' else 1500)
+    if h['failing'] is not None:
+        return h
     for i in range(n):
         prog = slp.gen(rng)
         r = check_pair(rng, prog)
@@ -140,6 +144,11 @@ def is_known(f):
 def replay(payload):
     print(json.dumps(payload.get('broken'), indent=1)[:3000])
     f = payload.get('failing_input')
+    if f and f.get('kind') == 'fit-history':
+        import fit_a
+        r = fit_a.check_history(f)
+        print('replayed failing input on the implementation:', 'STILL FAILS %s' % r.get('failure') if r else 'passes now')
+        return 1 if r else 0
     if f and 'python_plain' in f:
         try:
             names = f.get('names') or sorted(set(l.split(' = ')[0] for l in f['python_plain'] if l.startswith('t')))
@@ -154,6 +163,15 @@ def replay(payload):
 
 def correspondence(rng, tier):
     r = _base_correspondence(rng, tier)
+    # fit_history_programs: several predictions from one type-A fit object; df/u of every earlier prediction and of a, b
+    # re-read after each later one, ensemble content of every live Leaf after every step (model LineFitA.v)
+    import fit_a
+    f = fit_a.fit_correspondence(rng, tier, n=40 if tier == 'quick' else 800, focus='history')
+    r['mismatches'] += f.get('mismatches', [])
+    r['programs'] += f.get('programs', 0); r['steps'] += f.get('steps', 0)
+    r['distinct'] = r.get('distinct', 0) + f.get('distinct', 0)
+    r.setdefault('distribution', {})['fit_history_programs'] = f.get('programs', 0)
+    r['rule'] = r.get('rule', '') + '; plus fit_history_programs: 3-5 predictions per type-A fit object, earlier predictions and a, b re-read after each later one (model LineFitA.v)'
     # extra_corr: complex_history_programs: complex-kernel histories incl. a dof() that raises part-way followed by dof() of unrelated numbers (class-level accumulators), model CKernel.v
     f = __import__('cgen').run_ckernel_corr(rng, 'history', 'C10c', tier=tier)
     r['mismatches'] += f.get('mismatches', [])
